@@ -1,0 +1,14 @@
+// Add-only export shim (build tag verif): the package-level coders and the
+// bit-count table, one by one, for the generated-table obligations of the
+// verification harness (harness/cmd/gentables).
+
+//go:build verif
+// +build verif
+
+package meta
+
+// VerifHuff returns the VerifDump of encHuff and of decHuff.
+func VerifHuff() (enc, dec []uint32) { return encHuff.VerifDump(), decHuff.VerifDump() }
+
+// VerifOneBitsLUT returns oneBitsLUT.
+func VerifOneBitsLUT() []byte { return append([]byte(nil), oneBitsLUT[:]...) }
